@@ -2,7 +2,6 @@ CONSTANTS
   Mode = "dag"
   N = 4
   MaxEdges = 14
-  MaxBr = 0
   FailKinds = {"err"}
   AllowDangling = FALSE
   Runs = 2
